@@ -91,7 +91,7 @@ class C04(RecorderProp):
     RULE = ('random histories of operations on one recorder with every tolerated fault kind (key cannot be built, input/output '
             'data handler raises, unserialisable value, extractor raises / returns junk, save raises), discard / force from '
             'the operation and from intercepted bodies, nested interceptions, interrupts, all sampling parameters, recording '
-            'enabled / disabled / class skipped, the kill switch flipped mid-operation (also by the main thread while worker interceptions '
+            'enabled / disabled / class skipped (disabled operations also called with keyword arguments only, `Service.execute(self=obj, script=...)`), the kill switch flipped mid-operation (also by the main thread while worker interceptions '
             'are in flight), on memory / file / S3 cassettes and through the asynchronous wrapper; each run is executed decorated and as an '
             'undecorated twin; plus worker-thread scenarios (1-2 workers making intercepted calls while the main thread returns / '
             'discards / joins) under the controlled scheduler, one-shot values (iterators, streams) and values whose special methods misbehave '
